@@ -58,21 +58,8 @@ def _caps(o, acc=None, d=0):
     return acc
 
 
-def run(chk):
-    P = mir.Program("K1")
-    chk.use_program(P)
-    chk.explain("Rules over built MIR of emit_otlp::client (async bodies before coroutine lowering): R1 in OtlpTransport::send "
-                "each iteration peeks one request, awaits send_batch, and removes exactly one request with the operation "
-                "matching the peeked end (last<->pop), only on the Ok edge; the Err edge returns the channel untouched; Ok "
-                "only on the empty edge; R2 Channel::push adds the event to exactly one request and counts it once; R3 one "
-                "exec per configured signal with its own transport; R4 the cached connection is taken before and handed "
-                "back only after a successful request, inside the request timeout; R5 success is HTTP status in [200,300) / "
-                "grpc-status 0 (value sets computed from the comparison constants); R6 a transport error maps to a "
-                "retryable BatchError.")
-    chk.trust("rustc nightly; Vec::pop/last, Option::take contracts")
-    chk.assume("network behaviour, back-off timing and collector behaviour are not decided")
-    chk.exhaustive = True
-
+def send_loop_rules(chk, P, prefix):
+    """The per-request send loop of the OTLP transport (shared with C14: no event is exported twice)."""
     def r1():
         b = P.body(SEND)
         sb = [c for c in b.calls(normal_only=True) if (c.callee.get("path") or "").endswith("::send_batch")]
@@ -135,8 +122,26 @@ def run(chk):
             if not carries:
                 return False, "the error returned does not carry the channel (its remaining requests) back for retry", [], b.span
         return True, "", [peek.loc, s.loc, r.loc]
-    chk.ob("C12.R1:send-loop", "each acknowledged request is removed exactly once, from the end it was peeked at; a failed one stays", r1)
-    chk.ob("C12.R1:ok-when-drained", "Ok(()) only when no request is left", lambda: ok_only_when_drained(P))
+    chk.ob("%s.R1:send-loop" % prefix, "each acknowledged request is removed exactly once, from the end it was peeked at; a failed one stays", r1)
+    chk.ob("%s.R1:ok-when-drained" % prefix, "Ok(()) only when no request is left", lambda: ok_only_when_drained(P))
+
+
+def run(chk):
+    P = mir.Program("K1")
+    chk.use_program(P)
+    chk.explain("Rules over built MIR of emit_otlp::client (async bodies before coroutine lowering): R1 in OtlpTransport::send "
+                "each iteration peeks one request, awaits send_batch, and removes exactly one request with the operation "
+                "matching the peeked end (last<->pop), only on the Ok edge; the Err edge returns the channel untouched; Ok "
+                "only on the empty edge; R2 Channel::push adds the event to exactly one request and counts it once; R3 one "
+                "exec per configured signal with its own transport; R4 the cached connection is taken before and handed "
+                "back only after a successful request, inside the request timeout; R5 success is HTTP status in [200,300) / "
+                "grpc-status 0 (value sets computed from the comparison constants); R6 a transport error maps to a "
+                "retryable BatchError.")
+    chk.trust("rustc nightly; Vec::pop/last, Option::take contracts")
+    chk.assume("network behaviour, back-off timing and collector behaviour are not decided")
+    chk.exhaustive = True
+
+    send_loop_rules(chk, P, "C12")
 
     def err_keeps_channel():
         b = P.body(SEND)
